@@ -5,7 +5,7 @@ ids=${@:-01 02 03 04 05 06 07 08 09 10 11 12 13 14 15 16 17}
 cd /verif
 for i in $ids; do
   s=$(date +%s)
-  out=$(GOSYM_VERIF=$V ./bin/gosym check C$i --tier thorough 2>&1); rc=$?
+  out=$(GOSYM_VERIF=$V ${GOSYM_BIN:-./bin/gosym} check C$i --tier thorough 2>&1); rc=$?
   e=$(( $(date +%s) - s ))
   echo "C$i rc=$rc ${e}s $(echo "$out" | grep '^check ' | sed 's/^check C.. tier=[a-z]*: //' | cut -c1-260)"
   echo "$out" | grep "INCONCLUSIVE\|cover goals\|MISMATCH\|UNCONFIRMED\|^VIOLATION" | cut -c1-300 | head -6
